@@ -304,8 +304,10 @@ func (g *OpGen) genPlan(bulk bool, keys []int, allowPanic bool) *LoadPlan {
 	r := g.R
 	p := &LoadPlan{Kind: "val"}
 	switch r.Intn(10) {
-	case 0, 1:
+	case 0:
 		p.Kind = "err"
+	case 1:
+		p.Kind, p.Cancelled = "err", true // the caller's context is already cancelled
 	case 2, 3:
 		p.Kind = "notfound"
 	case 4:
